@@ -339,6 +339,33 @@ pub fn run(ctx: &mut Ctx) {
             }
         }
     }
+    // legacy (Latin-1) atom tags whose bytes happen to be well-formed UTF-8: each byte is still one character
+    for _ in 0..ctx.n(150, 3000) {
+        let src = crate::tgen::gen_atom_name(&mut ctx.rng, false);
+        let mut raw = src.as_bytes().to_vec();
+        if ctx.rng.chance(1, 3) {
+            raw.extend_from_slice(*ctx.rng.pick(&[&[0xc3u8, 0xa9][..], &[0xe2, 0x82, 0xac], &[0xf0, 0x9f, 0x98, 0x80], &[0xc2, 0x80], &[0xe9], &[0xc3], &[0xff, 0xfe]]));
+        }
+        raw.truncate(255);
+        let mut b = vec![131u8];
+        if ctx.rng.chance(1, 2) {
+            b.push(115);
+            b.push(raw.len() as u8);
+        } else {
+            b.push(100);
+            b.extend_from_slice(&(raw.len() as u16).to_be_bytes());
+        }
+        b.extend_from_slice(&raw);
+        ctx.count("form_latin1_utf8_shaped");
+        // bare, and inside a pid / a tuple
+        check_bytes(ctx, "gen", &b);
+        let mut t = vec![131u8, 104, 2];
+        t.extend_from_slice(&b[1..]);
+        t.extend_from_slice(&[88]);
+        t.extend_from_slice(&b[1..]);
+        t.extend_from_slice(&[0, 0, 0, 1, 0, 0, 0, 2, 0, 0, 0, 3]);
+        check_bytes(ctx, "gen", &t);
+    }
     // maps whose keys are distinct in Erlang but numerically equal (1 and 1.0): the recorded finding
     let one_f = 1.0f64.to_bits().to_be_bytes();
     let mut m = vec![131u8, 116, 0, 0, 0, 2, 97, 1, 97, 10, 70];
